@@ -63,7 +63,7 @@ NO_DIB = tuple(n for n in all_body_class_names() if n not in ("SearchResponse", 
 def gen_spec(rng, index):
     return {
         "seed": rng.randrange(1 << 30),
-        "latency_ms": rng.choice((100, 500, 1000, 1000, 2000, 3000)),
+        "latency_ms": rng.choice((100, 101, 337, 500, 1000, 1000, 1006, 1999, 2000, 3000)),
         "sync": [rng.choice(SYNC_KINDS) for _ in range(rng.choice((1, 1, 2, 3)))],
         "main": [rng.choice(MAIN_KINDS) for _ in range(rng.randrange(6, 34))],
     }
@@ -328,9 +328,10 @@ def run_history(ctx, spec):
         off = {
             "ahead": rng.choice((1, 2, 1000, 100_000, 1 << 33)),
             "sync": -rng.randrange(0, sync_tol),
-            "latency": -rng.randrange(sync_tol, lat),
+            "latency": -rng.choice((rng.randrange(sync_tol, lat), lat - 1, lat - 2)),
             "boundary": -lat,
-            "late": -lat - rng.choice((1, 2, 50, 5000, 10_000_000)),
+            # lateness probed in 1 ms steps right behind the tolerance, and far behind it
+            "late": -lat - rng.choice((1, 2, 3, 4, 5, 6, 7, 8, 9, 10, 11, 12, 1, 2, 50, 5000, 10_000_000)),
         }
         if kind.startswith("tn-") and kind[3:] in off:
             inject(kind, *tn(local + off[kind[3:]]))
@@ -359,7 +360,7 @@ def run_history(ctx, spec):
             body = rng.randbytes(rng.randrange(0, 10))
             inject(kind, *wrapper(local + 5, inner=ref.header(svc, 6 + len(body)) + body, unforwardable=True))
         elif kind == "w-busy":
-            inject(kind, *wrapper(local + rng.choice((0, 5)), inner=KNXIPFrame.init_from_body(RoutingBusy(wait_time=rng.choice((0, 20, 50)))).to_knx()))
+            inject(kind, *wrapper(local + rng.choice((0, 5)), inner=KNXIPFrame.init_from_body(RoutingBusy(wait_time=rng.choice((0, 20, 50)), control_field=rng.choice((0, 1, 0xFFFF, rng.randrange(65536))))).to_knx()))
         elif kind in ("restart-answered", "restart-unanswered"):
             # the same SecureRouting object is stopped and started again; wrappers are sent before and after.
             # The statement does not reset: outgoing timer values must not decrease across the restart.
@@ -390,7 +391,7 @@ def run_history(ctx, spec):
             # three authentic, timely wrapped RoutingBusy frames: #2 more than 10 ms after #1 while pausing (busy counter >= 1),
             # #3 after sending resumed but inside the N x 100 ms slow-duration fade-out; then a send, which must still complete
             def busy(wait):
-                return KNXIPFrame.init_from_body(RoutingBusy(wait_time=wait)).to_knx()
+                return KNXIPFrame.init_from_body(RoutingBusy(wait_time=wait, control_field=rng.choice((0, 0, 1, 0xFFFF, rng.randrange(65536))))).to_knx()
 
             w1 = rng.choice((20, 40, 60))
             inject("w-busy-1", *wrapper(model_local(tmr) + rng.choice((0, 3)), inner=busy(w1)))
